@@ -50,6 +50,9 @@ pub enum Op {
     Sum(Vec<usize>),
     Product(Vec<usize>),
     Inv(usize),
+    /// scalar on the LEFT (only the Python bindings have these reflected forms): s op x, evaluated as the
+    /// bindings document it: x + s, -x + s, x * s, recip(x) * s
+    RBinS(Bin, usize, f64),
 }
 
 #[derive(Clone, Debug, PartialEq, Serialize, Deserialize)]
@@ -396,6 +399,11 @@ pub fn apply_un<D: DualNum<F> + Signed, F: Flt>(f: Fun, x: &D) -> D {
     }
 }
 
+thread_local! {
+    /// evaluate the reflected division s / x as D::from(s) / x instead of recip(x) * s
+    pub static RDIV_ALT: std::cell::Cell<bool> = const { std::cell::Cell::new(false) };
+}
+
 /// Evaluate a program with the library type D. Returns all node values.
 pub fn eval_lib<D: DualNum<F>, F: Flt>(p: &Program, inputs: &[D]) -> Vec<D> {
     let mut v: Vec<D> = Vec::with_capacity(p.ops.len());
@@ -477,6 +485,22 @@ pub fn eval_lib<D: DualNum<F>, F: Flt>(p: &Program, inputs: &[D]) -> Vec<D> {
             }
             Op::Sum(list) => list.iter().map(|i| v[*i].clone()).sum(),
             Op::Product(list) => list.iter().map(|i| v[*i].clone()).product(),
+            Op::RBinS(bin, a, k) => {
+                let x = v[*a].clone();
+                let s = F::from64(*k);
+                match bin {
+                    Bin::Add => x + s,
+                    Bin::Sub => -x + s,
+                    Bin::Mul => x * s,
+                    Bin::Div => {
+                        if RDIV_ALT.with(|c| c.get()) {
+                            D::from(s) / x
+                        } else {
+                            x.recip() * s
+                        }
+                    }
+                }
+            }
         };
         v.push(r);
     }
@@ -551,6 +575,15 @@ pub fn eval_ref(p: &Program, inputs: &[Jet], is32: bool, levels: usize) -> Optio
                 }
                 acc
             }
+            Op::RBinS(bin, a, k) => {
+                let s = sc(*k);
+                match bin {
+                    Bin::Add => v[*a].add_scalar(s),
+                    Bin::Sub => v[*a].neg().add_scalar(s),
+                    Bin::Mul => v[*a].scale(s),
+                    Bin::Div => v[*a].recip()?.scale(s),
+                }
+            }
         };
         if !r.all_finite() {
             return None;
@@ -602,6 +635,15 @@ pub fn render(p: &Program) -> String {
             }
             Op::Sum(l) => format!("sum{l:?}"),
             Op::Product(l) => format!("product{l:?}"),
+            Op::RBinS(b, x, k) => {
+                let o = match b {
+                    Bin::Add => "+",
+                    Bin::Sub => "-",
+                    Bin::Mul => "*",
+                    Bin::Div => "/",
+                };
+                format!("{k} {o} n{x}")
+            }
         };
         if i >= p.n_inputs {
             s.push_str(&format!("n{i}={t}; "));
